@@ -1301,10 +1301,8 @@ class Module(ABC):
             # TODO FROM #447: Longterm this should be gotten rid of.
             # Instead edges should work similar to nodes (would also allow for
             # param sharing).
-            synapse_inds = self.base.edges.groupby("type").rank()["global_edge_index"]
-            synapse_inds = (synapse_inds.astype(int) - 1).to_numpy()
             if key in self.base.synapse_param_names:
-                inds = synapse_inds[inds]
+                inds = self.base._edge_inds_within_type()[inds]
 
             if key in params:  # Only parameters, not initial states.
                 # `inds` is of shape `(num_params, num_comps_per_param)`.
@@ -1318,6 +1316,15 @@ class Module(ABC):
             params=params
         )
         return params
+
+    def _edge_inds_within_type(self) -> np.ndarray:
+        """Map the global edge index to the index within its synapse type.
+
+        The parameters, states, and currents of synapses are stored in one array per
+        synapse type (see `to_jax()`), whereas views, recordings, and clamps refer to
+        synapses by their global edge index."""
+        inds = self.base.edges.groupby("type").rank()["global_edge_index"]
+        return (inds.astype(int) - 1).to_numpy()
 
     @only_allow_module
     def _get_states_from_nodes_and_edges(self) -> Dict[str, jnp.ndarray]:
@@ -1356,6 +1363,8 @@ class Module(ABC):
             inds = parameter["indices"]
             set_param = parameter["val"]
             if key in states:  # Only initial states, not parameters.
+                if key in self.base.synapse_state_names:
+                    inds = self.base._edge_inds_within_type()[inds]
                 # `inds` is of shape `(num_params, num_comps_per_param)`.
                 # `set_param` is of shape `(num_params,)`
                 # We need to unsqueeze `set_param` to make it `(num_params, 1)` for the
